@@ -30,13 +30,34 @@ Theorem C13_eval_frame_calls :
     (nomatch e = true -> forall j, read σ' (NGroup j) = read σ (NGroup j)).
 Proof. exact eval_frame_calls. Qed.
 
-(* `set T op= E` changes only T: every other local, every other ctx variable, every header with
-   a different (canonical) name keeps its value. *)
+(* `set T op= E` changes only T and the values derived from T: every other local, every other ctx
+   variable, every header with a different (canonical) name - and its sub-fields - keeps its value.
+   [independent x T]: x <> T when T is a local / ctx variable; when T is a header OR a sub-field
+   `obj.http.Name:key`, x is not that header nor any of its sub-fields (a sub-field write rewrites
+   the whole header value, of which every sub-field is a view). *)
 Theorem C13_set_frame :
   forall Os P n fn T op e σ o σ',
     wf σ -> pure e = true -> exec repaired Os P n fn (SSet T op e) σ = OK (o, σ') ->
-    forall x, x <> T -> is_group x = false -> read σ' x = read σ x.
+    forall x, independent x T -> is_group x = false -> read σ' x = read σ x.
 Proof. exact set_frame. Qed.
+
+(* spelled out for a sub-field target *)
+Theorem C13_set_field_frame :
+  forall Os P n fn ob h k op e σ o σ',
+    wf σ -> pure e = true -> exec repaired Os P n fn (SSet (NField ob h k) op e) σ = OK (o, σ') ->
+    (forall j, read σ' (NLocal j) = read σ (NLocal j)) /\
+    (forall g, read σ' (NGlobal g) = read σ (NGlobal g)) /\
+    (forall ob' h', (ob', h') <> (ob, h) ->
+       read σ' (NHeader ob' h') = read σ (NHeader ob' h') /\
+       forall k', read σ' (NField ob' h' k') = read σ (NField ob' h' k')).
+Proof. exact set_field_frame. Qed.
+
+(* `unset T` / `remove T` on a header or a sub-field: the same frame *)
+Theorem C13_unset_frame :
+  forall Os P n fn T σ o σ',
+    exec repaired Os P n fn (SUnset T) σ = OK (o, σ') ->
+    forall x, independent x T -> read σ' x = read σ x.
+Proof. exact unset_frame. Qed.
 
 (* A subroutine call (ProcessSubroutine / ProcessFunctionSubroutine) leaves the caller's locals
    and capture groups exactly as they were. *)
@@ -94,6 +115,21 @@ Theorem C13_neg_shapes_need_copy :
                read σ' (NLocal 0) <> read σ_ab (NLocal 0).
 Proof. exact neg_in_place_shapes_refutes. Qed.
 
+(* switch with fallthrough into the default; return(state) travelling through a call; sub-field writes *)
+Theorem C13_switch_example :
+  exists σ', exec repaired std_ops [] 20 false sw_example σ_ab = OK (ONorm, σ')
+    /\ read σ' (NLocal 1) = Some (VInt 3 false) /\ read σ' (NLocal 0) = Some (VInt 5 false).
+Proof. exact switch_example. Qed.
+
+Theorem C13_return_state_example :
+  exists σ', run_main repaired std_ops [(1%N, sub_f1)] 20 [SCall 1 []; SSet (NLocal 1) AEq (ELit (VInt 9 true))] σ_ab
+             = OK (OState 7, σ')
+    /\ read σ' (NLocal 1) = Some (VInt 0 false) /\ locals σ' = locals σ_ab.
+Proof. exact return_state_example. Qed.
+
+Theorem C13_field_example : field_example_stmt.
+Proof. exact field_example. Qed.
+
 Theorem C13_call_example :
   exists σ', exec repaired std_ops prog_f0 10 false (SCall 0 [EVar (NLocal 0)]) σ_ab = OK (ONorm, σ')
     /\ read σ' (NLocal 0) = Some (VInt 5 false) /\ length (heap σ') = 5.
@@ -117,6 +153,11 @@ Proof. exact param_alias_refutes. Qed.
 Print Assumptions C13_eval_frame.
 Print Assumptions C13_eval_frame_calls.
 Print Assumptions C13_set_frame.
+Print Assumptions C13_set_field_frame.
+Print Assumptions C13_unset_frame.
+Print Assumptions C13_switch_example.
+Print Assumptions C13_field_example.
+Print Assumptions C13_return_state_example.
 Print Assumptions C13_call_frame.
 Print Assumptions C13_call_stmt_frame.
 Print Assumptions C13_args_by_value.
